@@ -6,6 +6,9 @@ cosmetic-pairs:     the same abbreviation under the syntax defaults and under a 
 indent-depth:       formatting on, formatSkip empty: every line after the first starts with
                     baseIndent + indent * (elements open at that point); closing tag aligned with its opening tag
 selfclose-exact:    html / xhtml / xml self-closing styles give the same string up to ` /` / `/` before `>`
+indent-multiline-text: the indent-depth oracle over texts that span several lines: element texts (elements without children)
+                    and text nodes whose value has line breaks at its start, between words, directly after a field, at
+                    its end (LF, CRLF, CR, doubled), so that the text itself produces output lines
 
 The three "-context" clauses repeat the three oracles with a *context row* of non-formatting options (output.tagCase,
 output.attributeCase, output.attributeQuotes, output.reverseAttributes, output.booleanAttributes, output.compactBoolean,
@@ -376,6 +379,95 @@ def indent_context_cases(rng, n_random, rows):
                 o.update(random_context(rng))
                 yield (a, syn, o, voids)
 
+# ---------------------------------------------------------------------------------------------
+# texts that span several lines (round 5).  The line breaks typed in a text value become output lines of their own, and the
+# second sentence of the statement speaks about *every* line after the first, so these lines too must start with
+# baseIndent + one unit per open element.  Where the break sits inside the value (start, middle, after a field, end) and
+# which break it is must not matter.
+
+ML_WORDS = ['foo', 'bar', 'Hello', 'x1', 'b-c', 'zz top', 'abc', 'first', 'second line', '42']
+ML_FIELDS = ['${1:x}', '${2:ph}', '${1}', '${0}', '${3:two words}']
+ML_EMPTY_FIELDS = ['${1}', '${0}']
+ML_SUBTREE_SNIPPETS = ['choose']            # xsl snippet xsl:choose>xsl:when+xsl:otherwise: not a leaf once resolved
+ML_BREAKS = ['\n', '\n', '\n', '\r\n', '\r', '\n\n']
+
+# shapes: break at the start / in the middle / at the end / after a field, on block and inline leaf elements, on text nodes,
+# at top level and nested, repeated, several multi-line texts side by side
+CURATED_MULTILINE = [
+    'p{a\nb}', 'p{\nabc}', 'p{abc\n}', 'div>p{a\nb}', 'div>p{\nabc}', 'div>p{abc\n}', 'div>p{\na\nb\n}', 'div>p{a\n\nb}',
+    'div>ul>li{a\nb\nc}', 'section>article>p{\nfirst}', 'ul>li*2>span{\nx}', 'ul>li>span{${1:x}\nrest}', 'div>p{${1:first}\nand ${2:second}}',
+    'div>p{${1}\nb}', 'div>span{a\nb}', 'div>span{\nb}+em', 'p>b{\r\nx}+i{y\rz}', 'div>{a\nb}', 'div>{\na}', 'div>{a\nb}+p', 'div>p+{\na\nb}',
+    '{a\nb}+p', 'p+{\na}', 'div>p{a\nb}+{c}', 'div>{c}+p{\nb}', 'div>{c\nd}+{\ne\nf}', 'div>span{a\nb}+span{\nc}', 'ul>li{\nitem $}*3',
+    'div>p{\n}', 'div>p{\n\n}', 'div>a{\nb}', 'table>tr>td{\r\nv}*2', 'div#i.c>p.d[title=t]{\nx}', 'main>section>div>p>em{${2:q}\r\nw}',
+    'div>h1{\nT}+p{a\nb}+p{c\n}', 'nav>ul>li*2>a{\ngo}', 'div>p{x ${1:y}\n${2:z} w}', 'div>p{${1:y}\r\r${2:z}}', 'blockquote>p{\n\nabc}',
+]
+CURATED_MULTILINE_XSL = ['xsl:template>xsl:text{\nhello}', 'tm>val{\nx}', 'xsl:if[test=a]>xsl:text{a\nb}', 'choose>xsl:when>xsl:text{${1:v}\nw}']
+
+
+def multiline_text(rng):
+    """a text value of 1-3 words / fields with at least one line break: at the start (35 %), between two pieces (60 % each), at the
+    end (25 %).  No piece starts with a blank, so what follows a break in the output is indentation only up to the first
+    character of the piece."""
+    pieces = [rng.choice(ML_FIELDS) if rng.random() < 0.3 else rng.choice(ML_WORDS) for _ in range(rng.randint(1, 3))]
+    lead = rng.random() < 0.35
+    trail = rng.random() < 0.25
+    mids = [rng.random() < 0.6 for _ in pieces[1:]]
+    if not (lead or trail or any(mids)):
+        k = rng.randrange(len(pieces) + 1)          # place one break somewhere
+        if k == 0:
+            lead = True
+        elif k == len(pieces):
+            trail = True
+        else:
+            mids[k - 1] = True
+    s = rng.choice(ML_BREAKS) if lead else ''
+    for i, pc in enumerate(pieces):
+        if i:
+            # same line: no blank right after a field that prints nothing (it would stand at the start of a line)
+            s += rng.choice(ML_BREAKS) if mids[i - 1] else rng.choice(['', '-', ':'] if pieces[i - 1] in ML_EMPTY_FIELDS else [' ', '', ' - '])
+        s += pc
+    if trail:
+        s += rng.choice(ML_BREAKS)
+    return s
+
+
+def _ml_candidates(nodes, acc):
+    for nd in nodes:
+        if nd['name'] == '':
+            if not nd['children']:
+                acc.append(nd)
+        elif not nd['children'] and not nd['selfclose'] and nd['name'] not in SNIPPET_SELFCLOSING and nd['name'] not in ML_SUBTREE_SNIPPETS:
+            acc.append(nd)
+        _ml_candidates(nd['children'], acc)
+    return acc
+
+
+def multiline_tree(rng, nodes, p):
+    """gives a share `p` (at least one) of the leaf elements and text nodes of a c03_tags tree a text that spans several lines.
+    Elements with children keep their one-line text: a multi-line text *followed by children* is left out, see notes/C12.md."""
+    cand = _ml_candidates(nodes, [])
+    if not cand:
+        nodes.append({'name': rng.choice(['p', 'span', 'div', 'li']), 'attrs': [], 'text': None, 'children': [], 'selfclose': False, 'count': 1})
+        cand = [nodes[-1]]
+    forced = rng.randrange(len(cand))
+    for i, nd in enumerate(cand):
+        if i == forced or rng.random() < p:
+            nd['text'] = multiline_text(rng)
+    return nodes
+
+
+def multiline_indent_cases(rng, n_random, rows):
+    voids = VOIDS + SNIPPET_VOID_TAGS + ['z-w']
+    for syn in SYNTAXES:
+        abbrs = list(CURATED_MULTILINE) + (CURATED_MULTILINE_XSL if syn == 'xsl' else [])
+        for _ in range(n_random):
+            t = gen_tree(rng, depth=rng.randint(1, 4), width=rng.randint(1, 3), snippets=rng.random() < 0.3, xsl=syn == 'xsl')
+            abbrs.append(render_abbr(multiline_tree(rng, t, rng.choice([0.2, 0.5, 1.0]))))
+        for a in abbrs:
+            for r in range(rows):
+                o = random_row(rng, {'output.format': True, 'output.formatSkip': []}) if r else {'output.format': True, 'output.formatSkip': []}
+                yield (a, syn, o, voids)
+
 
 def run(tier, seed):
     rng = random.Random(seed)
@@ -442,4 +534,18 @@ def run(tier, seed):
                 exhaustive=False)
     run_parallel_sorted(c6, 'bounded.c12', 'check_selfclose', selfclose_context_cases(rng, nc, crow), chunk=400)
     c6.done()
-    return [c1, c2, c3, c4, c5, c6]
+
+    # own generator state: the case lists of the six clauses above do not depend on this clause
+    rng7 = random.Random(seed * 7919 + 12)
+    nm, mrow = (250, 3) if quick else (2500, 4)
+    c7 = Clause('indent-multiline-text', 'B',
+                '%d curated abbreviations (+%d xsl ones under xsl) and %d seeded random trees per syntax (c03_tags.gen_tree) in which 20 / 50 / '
+                '100 %% (at least one) of the leaf elements and text nodes carry a text of 1-3 words / fields with line breaks (LF, CRLF, CR, '
+                'doubled) at the start, between pieces, directly after a field, at the end; formatting on, output.formatSkip empty, other '
+                'formatting options random' % (len(CURATED_MULTILINE), len(CURATED_MULTILINE_XSL), nm),
+                'syntaxes %r, %d option rows per abbreviation (the first: defaults)' % (SYNTAXES, mrow),
+                'a case is (abbreviation, syntax, options); oracle of indent-equals-depth: every output line after the first, also the '
+                'lines produced by the breaks of a text, starts with baseIndent + indent x open elements', exhaustive=False)
+    run_parallel_sorted(c7, 'bounded.c12', 'check_indent', multiline_indent_cases(rng7, nm, mrow), chunk=400)
+    c7.done()
+    return [c1, c2, c3, c4, c5, c6, c7]
